@@ -252,6 +252,8 @@ pub fn run(tier: &str) -> i32 {
     // the membership of element j of the selection for every array length at once
     let nested_all: Value = Value::Array((0..=maxlen).map(|n| Value::Array((0..n).map(|i| json!([i])).collect())).collect());
     let nested_all_dc = DocCtx::new(&nested_all);
+    let non_arrays = json!([{"a": 1, "b": 2}, {"0": 0}, "abc", "", 5, null, true, {}, {"a": [0, 1]}]);
+    let non_arrays_dc = DocCtx::new(&non_arrays);
     let stride = if run.thorough() { 1 } else { 3 };
     let acc4 = cube
         .par_iter()
@@ -271,6 +273,8 @@ pub fn run(tier: &str) -> i32 {
             }
             for q in qs {
                 let ast = crate::model::parse::rfc_parse(&q).unwrap_or_else(|e| panic!("C11 query {} must be valid: {:?}", q, e)).0;
+                // the same on current nodes that are not arrays: a slice selects nothing from them
+                check_case(&run, &mut acc, &q, &ast, &non_arrays_dc, Mode::Nodes, "slice on a current node that is not an array");
                 let o = crate::watch::guarded(|| json!({"query": q, "doc": nested_all}).to_string(), || check_case(&run, &mut acc, &q, &ast, &nested_all_dc, Mode::Nodes, "slice on the current node of a filter"));
                 if let Outcome::Agree(n) = o {
                     if n > 0 {
